@@ -4717,3 +4717,54 @@ mod tests {
 		assert_eq!(cltv, trampoline_cltv_expiry + first_hop_delta);
 	}
 }
+
+/// What the origin of a payment learns from a failure packet, for external runtime-verification
+/// harnesses. Only built with the off-by-default `_verif` feature.
+#[cfg(feature = "_verif")]
+#[derive(Clone, Debug, PartialEq, Eq)]
+pub struct VerifDecodedFailure {
+	/// The channel the failure is attributed to, if any.
+	pub short_channel_id: Option<u64>,
+	/// Whether the payment must not be retried.
+	pub payment_failed_permanently: bool,
+	/// Whether the failure originated inside a blinded path.
+	pub failed_within_blinded_path: bool,
+	/// Hold times reported in the attribution data, first hop first.
+	pub hold_times: Vec<u32>,
+	/// `Debug` rendering of the network update derived from the failure, if any.
+	pub network_update: Option<String>,
+}
+
+/// Builds the failure packet the node holding `shared_secret` originates. Only built with `_verif`.
+#[cfg(feature = "_verif")]
+pub fn verif_build_failure_packet(
+	shared_secret: &[u8; 32], failure_code: u16, failure_data: &[u8], hold_time: u32,
+) -> OnionErrorPacket {
+	build_failure_packet(shared_secret, LocalHTLCFailureReason::from(failure_code), failure_data, hold_time)
+}
+
+/// Re-wraps a failure packet as the forwarding node holding `shared_secret` does. Only built with `_verif`.
+#[cfg(feature = "_verif")]
+pub fn verif_wrap_failure_packet(
+	packet: &mut OnionErrorPacket, shared_secret: &[u8; 32], hold_time: u32,
+) {
+	process_failure_packet(packet, shared_secret, hold_time);
+	crypt_failure_packet(shared_secret, packet);
+}
+
+/// Decodes a failure packet as the origin of a payment sent over `path` with `session_priv`.
+/// Only built with `_verif`.
+#[cfg(feature = "_verif")]
+pub fn verif_decode_failure_packet<T: secp256k1::Signing, L: Logger>(
+	secp_ctx: &Secp256k1<T>, logger: &L, path: &Path, session_priv: &SecretKey,
+	packet: OnionErrorPacket,
+) -> VerifDecodedFailure {
+	let decoded = process_onion_failure_inner(secp_ctx, logger, path, session_priv, None, packet);
+	VerifDecodedFailure {
+		short_channel_id: decoded.short_channel_id,
+		payment_failed_permanently: decoded.payment_failed_permanently,
+		failed_within_blinded_path: decoded.failed_within_blinded_path,
+		hold_times: decoded.hold_times,
+		network_update: decoded.network_update.map(|u| format!("{:?}", u)),
+	}
+}
